@@ -247,7 +247,19 @@ def op_programs():
     def fine_fwd_over_rev(me, x, v):
         return make_jvp(grad(lambda z: np.sum(fjv(z))))(x)(v)[1]
 
-    progs = {"fine_jvp_own": fine_jvp_own, "fine_jvp_sharedfn": fine_jvp_sharedfn, "fine_fwd_over_rev": fine_fwd_over_rev, "fine_einsum_a": fine_einsum_a, "fine_einsum_b": fine_einsum_b, "fine_fft": fine_fft, "hvp_sort": hvp_sort, "grad_sort": grad_sort, "hvp_index": hvp_index, "nested_mixed": nested_mixed, "vjp_reuse": vjp_reuse,
+    # interpreter-global state that a differential operator might touch around the user's function (warnings filters,
+    # NumPy error state): one thread inside holomorphic_grad, another one running a differentiation that makes NumPy
+    # emit a ComplexWarning (harmless alone)
+    from autograd import holomorphic_grad
+
+    def fine_holo(me, x, v):
+        r = holomorphic_grad(lambda w: np.sum(w * w * (1.0 + 0.5j)) + np.sum(np.exp(w * 0.1)))(x + 1j * v)
+        return onp.concatenate([onp.real(r), onp.imag(r)])
+
+    def fine_cwarn(me, x, v):
+        return grad(lambda z: np.sum((z * (1.0 + 2.0j)).astype(float) ** 2) + np.sum(np.sqrt(z * z + 1.0)))(x)
+
+    progs = {"fine_holo": fine_holo, "fine_cwarn": fine_cwarn, "fine_jvp_own": fine_jvp_own, "fine_jvp_sharedfn": fine_jvp_sharedfn, "fine_fwd_over_rev": fine_fwd_over_rev, "fine_einsum_a": fine_einsum_a, "fine_einsum_b": fine_einsum_b, "fine_fft": fine_fft, "hvp_sort": hvp_sort, "grad_sort": grad_sort, "hvp_index": hvp_index, "nested_mixed": nested_mixed, "vjp_reuse": vjp_reuse,
              "shared_grad": shared_grad, "shared_hvp": shared_hvp, "shared_jvp": shared_jvp, "shared_grad_argnum": shared_grad_argnum}
     return box, progs
 
@@ -306,6 +318,7 @@ def op_level_probe(seed=0, max_schedules=1500):
 
     warnings.filterwarnings("ignore")
     box, progs = op_programs()
+    state0 = (list(warnings.filters), dict(__import__("numpy").geterr()))
     rs = onp.random.RandomState(seed + 3)
     inputs = {}
     for t in (0, 1):
@@ -395,4 +408,10 @@ def op_level_probe(seed=0, max_schedules=1500):
                 bad = {"schedule": order, "errors": errs, "scheduled": {t: (res[t].tolist() if t in res else None) for t in (0, 1)}, "solo": [s_.tolist() for s_ in solo]}
                 break
         out.append({"programs": [a, b], "yield_points": counts, "schedules_run": nrun, "exhaustive": ncomb <= max_schedules and nrun == ncomb, "bad": bad})
+    state1 = (list(warnings.filters), dict(__import__("numpy").geterr()))
+    if state1 != state0:
+        out.append({"programs": ["<global state>", "<global state>"], "yield_points": [0, 0], "schedules_run": 1, "exhaustive": False,
+                    "bad": {"schedule": [], "errors": {0: "interpreter-global state changed across the concurrent runs: warnings.filters %d -> %d entries (first: %r), np.geterr %r -> %r"
+                                                        % (len(state0[0]), len(state1[0]), state1[0][:1], state0[1], state1[1])}, "scheduled": {}, "solo": []}})
+        warnings.filters[:] = state0[0]
     return out
